@@ -176,7 +176,7 @@ func (c *Conn) emitClose(buf *bytes.Buffer) error {
 		_, _ = buf.Read(b[0:])
 		realCode = binary.BigEndian.Uint16(b[0:])
 		switch realCode {
-		case 1004, 1005, 1006, 1014, 1015:
+		case 1004, 1005, 1006, 1015:
 			responseCode = internal.CloseProtocolError
 		default:
 			if realCode < 1000 || realCode >= 5000 || (realCode >= 1016 && realCode < 3000) {
